@@ -31,6 +31,14 @@ claimed = {
    'Seeded deterministic simulation of transfers with one flow or local fault injected after the server has consumed the ACT: a direction or both go silent, a link closes or starts failing writes, a destination write fails (optionally after a short write), a source read fails, the source file shrinks under the reader, or a process is stalled for T/2, 1.5T or 3T; T in {2,5,20} s on the fake clock. Oracles: both roles return within 3*max(T,20s)+10s of the fault (hang = quiescence with a role still inside the transfer), a side reporting success has correct files, a failing side that can still talk writes a fail/FAIL line unless its error was the peer message, and after a grace period of 2T+2s no goroutine of the client process is still inside transfer worker code (goroutine dump filtered by bubble and simulated process).',
    'Same-tree peers; faults before the server has consumed the ACT are not placed (trz/tsz wait for the ACT without a timer by design); T <= 0 is not exercised.',
    'deterministic simulation with seeded flow/disk/process faults; termination, report and goroutine-leak monitors on the fake clock', '§4 C11'),
+ 'C10': ('exploration',
+   'Seeded deterministic simulation of transfers stopped at a tape-chosen message after the handshake, under seeded schedules that decide whether the stop lands while a stage is blocked on a channel, in the buffer or in a sleep: user Ctrl-C plus keys through the real promptui prompt (stop and keep / stop and delete), the public StopTransferringFiles(bool), SIGINT/SIGTERM delivered to the real server main. Oracles: both roles return within 3*max(T,20s)+10s of the stop; the sides report Stopped / Stopped and deleted, or success only with fully correct files; with delete everything the transfer created is gone, files it had begun to replace are removed or intact, everything else is untouched; with keep a full-length destination file equals its source; bystanders untouched.',
+   'Same-tree peers; stop instants are sampled per message, not enumerated; the keep-oracle checks full-length files only.',
+   'deterministic simulation with seeded stop instants, real prompt path, simulated signals; termination/report/FS oracles', '§4 C10'),
+ 'C18': ('exploration',
+   'Seeded deterministic simulation of protocol 3/4 transfers paused 1-3 times by Ctrl-C at tape-chosen messages and continued through the real prompt after a think time of 0.02T..3T (T in {2,5,20} s on the fake clock). Oracles: pause <= 0.8T => both sides succeed with identical files; pause >= 1.2T => success with identical files or an error, never a hang and never a wrong file (in between either); wire monitor: while the question is open the client writes at most two non-keep-alive data messages.',
+   'Same-tree peers; the no-data-while-paused monitor looks at the client side (the side that owns the prompt).',
+   'deterministic simulation with seeded pause instants and lengths on the fake clock; real prompt; FS/report oracles + wire monitor', '§4 C18'),
 }
 pending_reason = 'check not built yet in this session (deterministic simulation planned, see DESIGN.md §4); not claimed'
 checks = []
